@@ -356,7 +356,13 @@ class Engine:
         if k == 'str':
             if v.py is not None:
                 return z3.BoolVal(bool(v.py))
+            if v.extra and 'chars' in v.extra:
+                return v.extra['chars'] > 0
             return z3.Length(v.z) > 0
+        if k == 'bytes':
+            return self.bytes_len(v) > 0
+        if k == 'str' and v.py is None and v.extra and 'chars' in v.extra:
+            return v.extra['chars'] > 0
         if k in ('tuple', 'list'):
             if v.items is not None:
                 return z3.BoolVal(len(v.items) > 0)
@@ -715,7 +721,8 @@ class Engine:
             if isinstance(e, ast.Name):
                 names.append(e.id)
             elif isinstance(e, ast.Attribute):
-                names.append(e.attr)
+                dotted = '%s.%s' % (e.value.id, e.attr) if isinstance(e.value, ast.Name) else e.attr
+                names.append(dotted if dotted in EXC_BASES else e.attr)
             else:
                 raise Unsupported(h, 'handler type expr')
         cls = exc.cls
@@ -1075,6 +1082,18 @@ class Engine:
                 and b.k == 'int' and z3.is_int_value(z3.simplify(b.z)):
             n = z3.simplify(b.z).as_long()
             return [(st, V(a.k, items=a.items * max(n, 0)))]
+        if a.k == 'bytes' and b.k == 'bytes' and isinstance(op, ast.Add):
+            if a.py is not None and b.py is not None:
+                return [(st, V('bytes', py=a.py + b.py))]
+            nul = z3.Or(self.bytes_has_nul(a), self.bytes_has_nul(b))
+            return [(st, V('bytes', py=None, extra={'len': self.bytes_len(a) + self.bytes_len(b),
+                                                    'has_nul': nul}))]
+        if isinstance(op, ast.Mult) and ((a.k == 'bytes' and b.k == 'int') or (b.k == 'bytes' and a.k == 'int')):
+            bb, n = (a, b) if a.k == 'bytes' else (b, a)
+            ln = self.bytes_len(bb)
+            tot = z3.If(n.z > 0, n.z * ln, 0)
+            return [(st, V('bytes', py=None, extra={
+                'len': tot, 'has_nul': z3.And(tot > 0, self.bytes_has_nul(bb))}))]
         if isinstance(op, ast.Add) and a.k == 'str' and b.k == 'str' and \
                 a.py is not None and b.py is not None:
             return [(st, vstr(a.py + b.py))]
@@ -1211,6 +1230,16 @@ class Engine:
                     self.floor_terms.append(q)
                     outs.append((st1, vreal(x - y * z3.ToReal(q))))
         return outs
+
+    def bytes_len(self, v):
+        if v.py is not None:
+            return z3.IntVal(len(v.py))
+        return v.extra['len']
+
+    def bytes_has_nul(self, v):
+        if v.py is not None:
+            return z3.BoolVal(b'\x00' in v.py)
+        return v.extra.get('has_nul', z3.BoolVal(False))
 
     def ufunc(self, name, arity, ret='real'):
         key = ('ufunc', name, arity)
@@ -1378,6 +1407,8 @@ class Engine:
             r = h(self, container, item, st, node)
             if r is not None:
                 return r
+        if container.k == 'bytes' and item.k == 'bytes' and item.py == b'\x00':
+            return self.bytes_has_nul(container)
         raise Unsupported(node, '`in` on %r' % (container,))
 
     # attributes -----------------------------------------------------------
@@ -1412,6 +1443,19 @@ class Engine:
             return NONE
         if kind == 'obj':
             return V('obj', oid=name, z=z3.Const(name, VV.Any))
+        if kind == 'bytes':
+            ln = z3.Int(name + '#len')
+            return V('bytes', py=None, extra={'len': ln, 'facts': [ln >= 0],
+                                              'has_nul': z3.Bool(name + '#nul')})
+        if kind == 'str':
+            n = z3.Int(name + '#chars')
+            u8 = z3.Int(name + '#utf8len')
+            return V('str', py=None, z=None, extra={
+                'chars': n, 'u8': u8, 'has_nul': z3.Bool(name + '#nul'),
+                'ascii': z3.Bool(name + '#ascii'),
+                'facts': [n >= 0, u8 >= n, u8 <= 4 * n,
+                          z3.Implies(z3.Bool(name + '#nul'), z3.And(n >= 1, u8 <= 4 * n - 3)),
+                          z3.Implies(z3.Bool(name + '#ascii'), u8 == n)]})
         if isinstance(kind, str) and kind.startswith('ref:'):
             return V('ref', cls=kind[4:], oid=name)
         if isinstance(kind, str) and kind.startswith('aref:'):
@@ -1505,6 +1549,19 @@ class Engine:
                 def q(eng, args, kwargs, st, node, _n=name, _o=obj.oid):
                     return [(st, vbool(z3.Bool('%s.%s!%d' % (_o, _n, next(eng.counter)))))]
                 return [(st, V('func', py=('spec', q)))]
+        if obj.k == 'str' and name == 'encode':
+            def enc(eng, args, kwargs, st, node, _s=obj):
+                if _s.py is not None:
+                    try:
+                        return [(st, V('bytes', py=_s.py.encode('utf-8')))]
+                    except UnicodeEncodeError:
+                        return [(st, Raised(eng.make_exc('UnicodeEncodeError', node=node)))]
+                # symbolic str: assumed encodable (no lone surrogates): listed assumption
+                return [(st, V('bytes', py=None, extra={'len': _s.extra['u8'],
+                                                        'has_nul': _s.extra['has_nul']}))]
+            return [(st, V('func', py=('spec', enc)))]
+        if obj.k in ('int', 'real', 'bool', 'none', 'bytes', 'tuple', 'list') and name == 'encode':
+            return [(st, Raised(self.make_exc('AttributeError', node=node)))]
         if obj.k == 'obj' and not name.startswith('__'):
             # attribute of an opaque object: another opaque object
             sub = '%s.%s' % (obj.oid, name)
